@@ -7,6 +7,11 @@
 //   term-dis    term_domain over dis_interval_domain
 //   uf          uf_domain
 //   num         reduced_numerical_domain_product2<term-dis, zones>  (z_num_domain_t of the tests)
+// Release configuration (the default CMAKE_BUILD_TYPE of crab): assert() is compiled out.
+// With assertions on, split_oct aborts on `top || x` (assert(left.m_potential.size() > 0)).
+#ifndef NDEBUG
+#define NDEBUG
+#endif
 #include "domhist.hpp"
 #include <crab/domains/intervals.hpp>
 #include <crab/domains/split_dbm.hpp>
